@@ -131,14 +131,15 @@ def run(ctx):
               node=program.func(CYC), rel="decorators/state.py")
 
     ctx.rule("R05.5", "start-up: a run or hold is started only with state_check_now and a true expression", floor=4)
-    for check_now, expr_true, S in itertools.product((True, False, None), (True, False), (None, S0)):
-        r = _cycle_run(program, [("stop",)], te=None, fe=None, S=S, H=None, times=[50.0], check_now=check_now, expr_true=expr_true, from_start=True)
+    # (docs/reference.rst, table "trigger at start?": with state_check_now the trigger occurs at start if the expression is true - for every state_hold_false)
+    for check_now, expr_true, S, H in itertools.product((True, False, None), (True, False), (None, S0), (None, 0, 10.0)):
+        r = _cycle_run(program, [("stop",)], te=None, fe=None, S=S, H=H, times=[50.0], check_now=check_now, expr_true=expr_true, from_start=True)
         want_disp = 1 if (check_now and expr_true and S is None) else 0
         want_hold = 50.0 if (check_now and expr_true and S is not None) else None
         ok = r is not None and len(r["dispatch"]) == want_disp and r["te"] == want_hold
-        ctx.check(ok, "R05.5", CYC, f"start-up check_now={check_now} expr={expr_true} hold={S}",
-                  msg=f"StateTriggerDecorator._cycle start-up with state_check_now={check_now}, expression {'true' if expr_true else 'false'}, state_hold={S}: "
-                  f"{len(r['dispatch']) if r else '?'} dispatch(es), hold since {r and r['te']}; specified {want_disp} dispatch(es), hold since {want_hold}", key=f"startup {check_now}/{expr_true}/{S}",
+        ctx.check(ok, "R05.5", CYC, f"start-up check_now={check_now} expr={expr_true} hold={S} hold_false={H}",
+                  msg=f"StateTriggerDecorator._cycle start-up with state_check_now={check_now}, expression {'true' if expr_true else 'false'}, state_hold={S}, state_hold_false={H}: "
+                  f"{len(r['dispatch']) if r else '?'} dispatch(es), hold since {r and r['te']}; documented {want_disp} dispatch(es), hold since {want_hold}", key=f"startup {check_now}/{expr_true}/{S}/{H}",
                   node=program.func(CYC), rel="decorators/state.py")
 
     ctx.rule("R05.8", "what counts as an evaluation: the change predicates that decide whether a notification starts, continues or resets a hold equal their reference "
